@@ -1,9 +1,9 @@
 #!/bin/bash
-# usage: tools/all_quick.sh <tier> <seed> [<seed> ...] : runs every check with each seed, prints one line per run
+# usage: [CHECKS="C01 C05"] tools/all_quick.sh <tier> <seed> [<seed> ...] : runs every (or the named) check with each seed, one line per run
 tier=$1; shift
 cd "$(dirname "$0")/.."
 for seed in "$@"; do
-  for c in C01 C02 C03 C04 C05 C06 C07 C08 C09 C10 C11 C12 C13 C14 C15 C16 C17 C18 C19; do
+  for c in ${CHECKS:-C01 C02 C03 C04 C05 C06 C07 C08 C09 C10 C11 C12 C13 C14 C15 C16 C17 C18 C19}; do
     s=$(date +%s)
     out=$(VERIF_SEED=$seed ./check $c $tier 2>&1); code=$?
     e=$(date +%s)
